@@ -51,7 +51,7 @@ inline bool prop_allowed(pctx x, uint8_t id) {
 }
 
 struct prop_t { uint8_t id; uint32_t num; str a, b; };
-enum { MAXP = 10, MAXT = 4, MAXC = 8 };
+enum { MAXP = 24, MAXT = 4, MAXC = 64 };
 struct props_t {
   int n; prop_t v[MAXP];
   const prop_t* find(uint8_t id, int nth = 0) const { for (int i = 0; i < n; i++) if (v[i].id == id && nth-- == 0) return &v[i]; return nullptr; }
@@ -169,7 +169,7 @@ inline int decode(const uint8_t* p, size_t n, packet& k, int L = 0) {
       if (k.qos == 3) return BAD;
       if (k.qos == 0 && k.dup) return BAD;                // [MQTT-3.3.1-2]
       k.topic = r.lstr(); if (r.bad) return BAD;
-      if (k.qos) { k.pid = r.u16(); k.has_pid = true; if (r.bad || k.pid == 0) return BAD; }
+      if (k.qos) { k.pid = r.u16(); k.has_pid = true; if (r.bad || (k.pid == 0 && !(L & L_PID0))) return BAD; }
       if (!parse_props(r, X_PUBLISH, k.props, k.props_present, false, L)) return BAD;
       k.payload = {r.p + r.i, (uint32_t)(r.n - r.i)};
       return OK;
